@@ -128,5 +128,7 @@ void h_run(void) {
   if (*shared != acquisitions) sim_violation("C18-lost-update", "%ld critical sections incremented the shared counter, which holds %ld", acquisitions, *shared);
   if (occ) sim_violation("C18-held-at-rest", "lock still held after all threads finished");
   if (lk.state.counters.ticket != lk.state.counters.users) sim_violation("C18-state-at-rest", "ticket %u != users %u at rest", lk.state.counters.ticket, lk.state.counters.users);
+  fiber_spinlock_destroy(&lk);
+  free(lk_p);
   sim_finish_ok();
 }
